@@ -16,7 +16,8 @@ fn fmt_str(f: FileFormat) -> &'static str {
 
 pub fn run(args: &[&str]) -> String {
     let bytes = bytes_of_hex(args[0]);
-    let path = tmp_file(&bytes, "bin");
+    // `detectx <hex> <ext>`: the file name carries the given extension (the answer must not depend on it)
+    let path = tmp_file(&bytes, args.get(1).copied().unwrap_or("bin"));
     let p2 = path.clone();
     let (tx, rx) = std::sync::mpsc::channel();
     std::thread::spawn(move || {
